@@ -33,6 +33,7 @@ import (
 	"github.com/zmap/zcrypto/cryptobyte"
 	"github.com/zmap/zcrypto/encoding/asn1"
 	"verifmc/internal/ev"
+	"verifmc/internal/nohb"
 )
 
 // ---------------------------------------------------------------- framework
@@ -63,6 +64,12 @@ const (
 	vValue
 	vOverReject
 	vPanic
+	// prior.go
+	vPriorDecision
+	vPriorValue
+	vInput
+	vClobber
+	vShare
 )
 
 var vText = []string{
@@ -72,6 +79,11 @@ var vText = []string{
 	"decoded value differs from the DER value",
 	"rejects a canonical encoding inside the Go type's range",
 	"panic",
+	"the accept/reject decision depends on what the destination held before the call",
+	"the decoded value depends on what the destination held before the call",
+	"decoding modified the input bytes",
+	"an earlier result changed when the same input was decoded into a second destination",
+	"the results in two destinations share storage: writing through one changed the other",
 }
 
 type witness struct {
@@ -126,6 +138,14 @@ type W struct {
 	long    []byte // long-contents families: decoder input
 	d       dests
 
+	// prior.go: destination independence and input immutability
+	e, s0  dests  // second destination object (holds the prior contents), snapshot of the baseline result
+	inSave []byte // copy of the decoder input taken before the call
+	pf     bool   // the current case takes part in the destination pre-fill (set by the family's evaluator)
+	pfAll  bool   // thorough tier, replay: every case of the exhaustive INTEGER / BIT STRING families takes part
+
+	pfReads, pfAccepts, pfRejects, pfWrites, pfWindows int64
+
 	// allVariants (thorough tier, replay): the trailing-octet and other-identifier
 	// variants run on every accepted 3-octet OID body and on the accepted 3-octet
 	// INTEGER contents whose last octet is in edge6, instead of the quick tier's
@@ -135,7 +155,7 @@ type W struct {
 
 func newW(c *ev.Ctx, f *family) *W {
 	return &W{c: c, f: f, hist: make([]int64, len(f.targets)*nKinds*maxIdx), viol: map[vkey]*vrec{}, out: make([]byte, 0, 512), bld: new(cryptobyte.Builder),
-		allVariants: !c.Quick() || c.Replay != nil}
+		allVariants: !c.Quick() || c.Replay != nil, pfAll: !c.Quick() || c.Replay != nil}
 }
 
 func (w *W) bump(t, kind, idx int) { w.hist[(t*nKinds+kind)*maxIdx+idx]++ }
@@ -292,8 +312,11 @@ type shard func(w *W)
 
 type famStats struct {
 	Cases, Evaluations, Operations, Accepts, Distinct int64
-	Shards, ShardsDone                                int
-	WallSeconds                                       float64 // information only, never part of a verdict
+	// destination pre-fill (prior.go): decodes into a pre-filled destination, of which accepted with the same
+	// value / rejected like the baseline; results written through; of which windows of the input
+	PrefilledDecodes, PrefilledAccepts, PrefilledRejects, WrittenThrough, InputWindows int64
+	Shards, ShardsDone                                                                 int
+	WallSeconds                                                                        float64 // information only, never part of a verdict
 }
 
 var total famStats
@@ -350,6 +373,11 @@ func merge(c *ev.Ctx, f *family, ws []*W) famStats {
 		st.Operations += w.ops
 		st.Accepts += w.accepts
 		st.Distinct += w.distinct
+		st.PrefilledDecodes += w.pfReads
+		st.PrefilledAccepts += w.pfAccepts
+		st.PrefilledRejects += w.pfRejects
+		st.WrittenThrough += w.pfWrites
+		st.InputWindows += w.pfWindows
 		for i, v := range w.hist {
 			hist[i] += v
 		}
@@ -377,8 +405,23 @@ func merge(c *ev.Ctx, f *family, ws []*W) famStats {
 	total.Operations += st.Operations
 	total.Accepts += st.Accepts
 	total.Distinct += st.Distinct
+	total.PrefilledDecodes += st.PrefilledDecodes
+	total.PrefilledAccepts += st.PrefilledAccepts
+	total.PrefilledRejects += st.PrefilledRejects
+	total.WrittenThrough += st.WrittenThrough
+	total.InputWindows += st.InputWindows
 
 	oc := ev.Hist{}
+	for cls, n := range map[string]int64{
+		"accepted with the value, rest and decision of the decode into a zero destination":                                                      st.PrefilledAccepts,
+		"rejected like the decode into a zero destination (state of the destination: undocumented, no verdict)":                                 st.PrefilledRejects,
+		"result written through by the harness: first result and input unchanged":                                                               st.WrittenThrough - st.InputWindows,
+		"result written through by the harness: it is a window of the input (cryptobyte by design, encoding/asn1 undocumented; input restored)": st.InputWindows,
+	} {
+		if n != 0 {
+			oc[f.name+" | destination pre-filled | "+cls] += n
+		}
+	}
 	for t, tn := range f.targets {
 		codec := "cryptobyte"
 		if strings.HasPrefix(tn, "encoding/asn1") {
@@ -480,6 +523,10 @@ func forAllOver(alpha []byte, k int, buf []byte, f func()) {
 }
 
 func main() {
+	if nohb.IsWorker() {
+		nohb.WorkerMain(reentrantOps(), reentrantRepoDir())
+		return
+	}
 	asn1.AllowPermissiveParsing = false // process-global; set once, never toggled
 	ev.Main("C19", "model_checking", func(c *ev.Ctx) {
 		if asn1.AllowPermissiveParsing {
@@ -508,6 +555,13 @@ func main() {
 			"a high-tag-number family (8 leading octets x 1..6 subsequent octets over {00,1e,1f,7f,80,87,88,ff} x length {00,01}) and a long length-of-length family (1..9,126,127 length octets), " +
 			"each completed with position-dependent contents (offset i of the input holds byte(131i+7)^byte(i>>8)^byte(i>>15)) of the declared length when that is at most 2^17 (thorough: at most 2^24 for the 8 identifier octets with tag number 4), plus one-short and one-long variants up to 300 octets, otherwise left truncated; " +
 			"GeneralizedTime (cryptobyte): field grid + every single-octet substitution/truncation/extension of 20000229235959Z. " +
+			"Destination independence and input immutability (prior.go): every decode of the INTEGER, BOOLEAN, OBJECT IDENTIFIER, BIT STRING, OCTET STRING and GeneralizedTime families (both codecs, every destination kind, accepted and rejected cases, trailing-octet and other-identifier variants included) " +
+			"[the pre-fill runs under the expected identifier, with the trailing octet and under the first (constructed) of the 7 other identifier octets; the input comparison follows every decode] " +
+			"is followed by a comparison of the input bytes with a copy taken before the call; the cases named below are decoded again into a SECOND destination object pre-filled with each prior content of its kind " +
+			"(integers: all ones and 0x5b5a59.. in every octet; bool: the complement; big.Int / *big.Int: -1 and a 44-octet value; []byte, cryptobyte.String, BitString, ObjectIdentifier: a longer non-empty value in a retained backing array with spare capacity and a one-element full one; interface{}: int64(-1) and a []byte; time.Time: a zoned instant with nanoseconds and one before year 1): " +
+			"accept/reject decision, consumed length and decoded value must equal those of the decode into the zero destination (after a rejected decode the destination is documented by neither codec: no demand); the first result must be unchanged by the second decode and after the harness has written through the second result " +
+			"(slice elements, big.Int words; a result that is a window of the input - cryptobyte by design, encoding/asn1 undocumented - is counted and the input restored). Pre-filled cases: all of BOOLEAN, GeneralizedTime, OCTET STRING, the long-contents families, INTEGER contents of 0..2 octets + boundary family, BIT STRING bodies of 0..2 octets; " +
+			"of the three-octet INTEGER contents those with first and last octet in E6, of the three-octet BIT STRING bodies those with last octet in E6, of the OID bodies those that also get the variants (thorough: every three-octet INTEGER content, BIT STRING body and OID body); the TAG/LENGTH family takes no part in this pass. " +
 			"distinct_nontrivial = cases accepted by at least one decoder (they exercise the re-encoding oracle); " +
 			"transitions = decode and re-encode calls on the real code; traces = accepted decodes whose re-encoding was compared")
 		c.Assume("reference DER predicates in ref.go transcribe X.690 8.x/10/11 and are independent of zcrypto",
@@ -515,6 +569,7 @@ func main() {
 			"over-rejection is a violation only for canonical encodings inside the documented range of the target Go type; cryptobyte high-tag-number identifiers (documented unsupported), sub-identifiers > MaxInt32 (both decoders), values outside the Go type are information",
 			"an OCTET STRING is covered as 'a tag/length header' read by the readers that expect one given identifier",
 			"GeneralizedTime: non-UTC offsets, fractional seconds, second 60 are classes on which the statement is silent: reject or accept-with-exact-round-trip are both conforming",
+			"destination independence: 'the decoded value' of the statement is a function of the input bytes; a decoder whose result depends on the previous content of the caller's variable, that writes to its input, or whose results share storage with each other breaks 'decode, then re-encode the decoded value' for every caller that reuses a destination or keeps two results",
 			"64-bit platform (Go int = 64 bits)")
 		c.Set("header_content_limit", hdrLimit)
 
@@ -537,6 +592,7 @@ func main() {
 			setGC()
 			runFamily(c, famOID, "all bodies of 4 octets (2^32)", byteShards(4, 4), nil)
 		}
+		reentrantPhase(c)
 		c.Set("per_target_outcomes", perTarget)
 		c.Set("totals", total)
 	})
